@@ -5,6 +5,7 @@ import (
 	"fmt"
 	"sort"
 	"strings"
+	"sync/atomic"
 	"testing"
 
 	"pgregory.net/rapid"
@@ -28,7 +29,13 @@ type c07Case struct {
 	// Splits (engine tikv-regions): region borders of the TiKV mock at internal keys of pool keys (index record or any
 	// revision of the history): the compaction scans per region, borders fall between versions of one key
 	Splits []c03Split `json:",omitempty"`
+	// IterFault n > 0: one more placement per case — the (n-1 mod N)-th step of the compaction's iterators (N steps in
+	// the fault-free run) fails once with a plain error; the scanner retries that partition after its back-off (1 s)
+	IterFault int `json:"iter_fault,omitempty"`
 }
+
+// number of iterator steps the compaction of the last c07Exec made
+var c07LastNexts int64
 
 var c07FaultKinds = []string{"err", "cas", "die", "lost-ack", "unknown-lost"}
 
@@ -67,6 +74,9 @@ func genC07(t *rapid.T) interface{} {
 		for i := 0; i < ns; i++ {
 			c.Splits = append(c.Splits, c03Split{K: DrawIntn(t, len(c.Keys), "splitKey"), Off: rapid.IntRange(-2, nh).Draw(t, "splitOff")})
 		}
+	}
+	if !strings.Contains(c.Engine, "badger") && rapid.IntRange(0, 99).Draw(t, "iterFault") >= 90 {
+		c.IterFault = 1 + rapid.IntRange(0, 60).Draw(t, "iterFaultAt")
 	}
 	c.CSel = rapid.OneOf(rapid.Just(-1), rapid.IntRange(0, 30), rapid.Just(1000)).Draw(t, "csel")
 	np := rapid.IntRange(1, 6).Draw(t, "npost")
@@ -257,8 +267,56 @@ func c07Exec(c *c07Case, pos int, kind string, st *CaseStats) (deletes int, inte
 			return Pass
 		}
 	}
+	failStep := -1
+	if kind == "iter-step" {
+		failStep = pos
+	}
+	if kind == "iter-target0" || kind == "iter-target1" {
+		// aim at the step that fetches the deletion record of a key whose previous record is a live version: the scan
+		// walks the records in key order, one step per record
+		all, derr := DumpAll(env.Eng.KV)
+		if derr != nil {
+			return 0, false, Inconclusivef("dump: %v", derr)
+		}
+		var inRange []RawKV
+		for _, r := range all {
+			if len(r.Key) < 13 {
+				continue
+			}
+			raw, _, e := shimCoder.Decode(r.Key)
+			if e == nil && inCompactRange(string(raw), c.Skipped) {
+				inRange = append(inRange, r)
+			}
+		}
+		var cands []int
+		for i := 1; i < len(inRange); i++ {
+			k, rev, _ := shimCoder.Decode(inRange[i].Key)
+			pk, prev, _ := shimCoder.Decode(inRange[i-1].Key)
+			if rev > 0 && prev > 0 && bytes.Equal(k, pk) && string(inRange[i].Val) == "tombstone" && string(inRange[i-1].Val) != "tombstone" {
+				cands = append(cands, i)
+			}
+		}
+		if len(cands) == 0 {
+			return 0, false, nil
+		}
+		failStep = cands[pos%len(cands)]
+		if kind == "iter-target1" {
+			failStep++
+		}
+		st.Label("iterator-fault-aimed-at-a-deletion-record")
+	}
+	var nexts int64
+	env.Shim.OnNext = func(iterIdx, p int) Decision {
+		n := atomic.AddInt64(&nexts, 1) - 1
+		if int(n) == failStep {
+			return FailNoApply
+		}
+		return Pass
+	}
 	resp, cerr := env.B.Compact(env.Ctx, req)
 	env.Shim.OnDelete = nil
+	env.Shim.OnNext = nil
+	c07LastNexts = atomic.LoadInt64(&nexts)
 	if cerr != nil {
 		return 0, false, fmt.Errorf("Compact(%d) returned error %v", req, cerr)
 	}
@@ -350,6 +408,7 @@ func runC07(ci interface{}, st *CaseStats) error {
 		return err
 	}
 	st.Count("fault_free_runs", 1)
+	nextsFaultFree := int(c07LastNexts)
 	st.Labelf("deletes:%s", bucket(d))
 	if len(c.Skipped) > 0 {
 		st.Label("cfg:skipped-prefixes")
@@ -388,6 +447,27 @@ func runC07(ci interface{}, st *CaseStats) error {
 			inner = true
 		}
 	}
+	if c.IterFault > 0 && nextsFaultFree > 0 {
+		p := (c.IterFault - 1) % nextsFaultFree
+		if _, _, err := c07Exec(c, p, "iter-step", st); err != nil {
+			if _, inc := err.(*Inconclusive); inc {
+				return err
+			}
+			c.OnlyPos, c.OnlyKind = p, "iter-step"
+			return err
+		}
+		st.Count("iterator_step_fault_placements", 1)
+		st.Label("iterator-step-failed-once")
+		for _, k := range []string{"iter-target0", "iter-target1"} {
+			if _, _, err := c07Exec(c, c.IterFault, k, st); err != nil {
+				if _, inc := err.(*Inconclusive); inc {
+					return err
+				}
+				c.OnlyPos, c.OnlyKind = c.IterFault, k
+				return err
+			}
+		}
+	}
 	if interesting && inner {
 		st.Nontrivial()
 	}
@@ -416,7 +496,7 @@ var _ = backend.PrefixEnd
 var specC07 = &Spec{
 	ID:    "C07",
 	Level: "fault_enumeration",
-	Rule:  "case = key pool (keys under the prefix, under skipped prefixes, outside the prefix), 0..2 skipped prefixes, history of 4..24 writes biased to multi-version keys / tombstones / re-creations, compaction revision (0, any revision, above current), 1..6 post-compaction writes. Per case: one fault-free compaction counts its D storage deletes, then every delete position p in 0..D-1 (all when D<=16, else 16 spread) x fault kind {delete fails, delete reports failed condition, compactor stops at p, delete applied but answered outcome-unknown, delete not applied and answered outcome-unknown} is replayed on a fresh store. Non-trivial = some compactable key has a tombstone <= R or versions on both sides of R, and a fault was placed strictly inside 1..D-2; distinct = SHA-1 of the case",
+	Rule:  "case = key pool (keys under the prefix, under skipped prefixes, outside the prefix), 0..2 skipped prefixes, history of 4..24 writes biased to multi-version keys / tombstones / re-creations, compaction revision (0, any revision, above current), 1..6 post-compaction writes. Per case: one fault-free compaction counts its D storage deletes, then every delete position p in 0..D-1 (all when D<=16, else 16 spread) x fault kind {delete fails, delete reports failed condition, compactor stops at p, delete applied but answered outcome-unknown, delete not applied and answered outcome-unknown} is replayed on a fresh store; a fifth of the cases add one placement of a transient error on a step of the iterators the compaction uses. Non-trivial = some compactable key has a tombstone <= R or versions on both sides of R, and a fault was placed strictly inside 1..D-2; distinct = SHA-1 of the case",
 	Gen:   genC07,
 	New:   func() interface{} { return &c07Case{OnlyPos: -1} },
 	Run:   runC07,
